@@ -127,14 +127,18 @@ PROPS['C13'] = {
 PROPS['C16'] = {
     'level': 'exploration',
     'vx': [{'unit': 'responses', 'functions': ['unknown_attributes', 'bad_request', 'builder_error', 'builder_success', ":: builder", ':: class', ':: method', ':: has_class', 'from_class_method', 'to_bits',
-                                             'lemma_type_roundtrip', 'lemma_method_idem', 'lemma_literals', 'ErrorCode :: new', 'UnknownAttributes :: new', 'add_attribute', "MessageBuilder<'a> :: into_owned", 'get_type', 'transaction_id', 'theorem_unsealed_builder_parses', 'theorem_builder_wellformed', 'lemma_unsealed_ok', 'lemma_blayout_tail_ok', 'lemma_holds_push', 'lemma_holds_congruent']}],
+                                             'lemma_type_roundtrip', 'lemma_method_idem', 'lemma_literals', 'ErrorCode :: new', 'UnknownAttributes :: new', 'add_attribute', "MessageBuilder<'a> :: into_owned", 'get_type', 'transaction_id', 'theorem_unsealed_builder_parses', 'theorem_builder_wellformed', 'lemma_unsealed_ok', 'lemma_blayout_tail_ok', 'lemma_holds_push', 'lemma_holds_congruent',
+                                             'check_attribute_types', 'comprehension_required', 'iter_attributes', 'lemma_unsupported_len', 'lemma_exposed_len']},
+           {'unit': 'parse', 'functions': ['next', 'iter_attributes']}],
     'kx': ['k16_comprehension_required'],
     'bx': ['c16'],
-    'rule': 'Kani complete harness for the classification; Verus for the response constructors; BX enumeration for the verdict of check_attribute_types (iterator adaptors).',
+    'rule': 'Verus verification conditions of unit responses (policing verdict + response constructors over the builder contracts) and of the iterator in unit parse; Kani complete harness for the classification; BX enumeration as bounded cross-check and witness finder.',
     'proved': ['comprehension_required(t) <=> t < 0x8000 for all 65536 types (Kani, complete)',
                '(Verus, unit responses = the builder contracts + the two constructors) response construction: for a request src, Message::bad_request(src) / unknown_attributes(src, types) return a builder with class error, the method and the transaction id of src (type field without the top bits), whose attributes are exactly SOFTWARE "stun-types", ERROR-CODE 400 "Bad Request" resp. 420 "Unknown Attributes" (value: 00 00 class number + text) and - unless the list is empty - UNKNOWN-ATTRIBUTES listing exactly the given types in the given order; builder_error / builder_success / builder; the panic! of builder_error/builder_success is unreachable for requests (documented precondition; D8 is the known finding where check_attribute_types violates it)',
-               '(Verus) MessageType::{from_class_method, class, method, has_class} against the RFC 8489 s5 bit layout, with the round-trip lemma; Message::{class, method, has_class, get_type, transaction_id}'],
-    'bounded': ['the verdict of check_attribute_types (which of 420 / 400 / nothing, and which types are listed: iterator map/filter/any over the exposed attributes): BX against an RFC 8489 s6.3.1 oracle; that the response parses back: proved up to build() (the constructors ensure a writable list without sealing attributes; theorem_unsealed_builder_parses: its bytes satisfy wf_message when the body fits the 16-bit length field), BX end to end',
+               '(Verus) MessageType::{from_class_method, class, method, has_class} against the RFC 8489 s5 bit layout, with the round-trip lemma; Message::{class, method, has_class, get_type, transaction_id}',
+               '(Verus, rule R11: the four iterator chains of Message::check_attribute_types desugared to their defining loops, closures verbatim) the verdict for every accepted request and all supported / required lists of any length: 420 listing exactly unsupported_of(exposed stream) - the exposed types below 0x8000 that are not in `supported`, in message order - if that list is not empty; otherwise 400 if some required type is not exposed; otherwise None; every response has class error, the method and id of the request, no sealing attribute; no panic, overflow or non-termination (the iterator contract is the one proved in unit parse)',
+               '(Verus) build() / byte_len() of the response builder are proved (unit builder), so with theorem_unsealed_builder_parses the response bytes satisfy wf_message, for which Message::from_bytes is proved to answer Ok'],
+    'bounded': ['BX against an RFC 8489 s6.3.1 oracle, end to end through build() and the parser (cross-check and witness finder)',
                 'Software::new (str::len has no usable vstd specification): assumed in VX, BX'],
     'trusted': _KX_TRUST + ['mirror impls of AttributeWrite for Software / ErrorCode / UnknownAttributes in unit builder (value functions as proved in units writers / attrs)', 'smallvec::smallvec![] stand-in (empty list)'],
 }
